@@ -16,11 +16,16 @@ pub open spec fn rank(c: CredentialType) -> int {
 impl vstd::std_specs::cmp::PartialEqSpecImpl for CredentialType { open spec fn obeys_eq_spec() -> bool { true } open spec fn eq_spec(&self, o: &CredentialType) -> bool { *self == *o } }
 impl vstd::std_specs::cmp::PartialOrdSpecImpl for CredentialType { open spec fn obeys_partial_cmp_spec() -> bool { true }
     open spec fn partial_cmp_spec(&self, o: &CredentialType) -> Option<Ordering> { if rank(*self) < rank(*o) { Some(Ordering::Less) } else if rank(*self) == rank(*o) { Some(Ordering::Equal) } else { Some(Ordering::Greater) } } }
+// Option::filter (std documentation), through the predicate's own contract
+pub assume_specification<T, P: FnOnce(&T) -> bool>[ Option::<T>::filter ](o: Option<T>, p: P) -> (r: Option<T>)
+    ensures o is None ==> r is None,
+            o matches Some(x) ==> ((r == Some(x) && p.ensures((&x,), true)) || (r is None && p.ensures((&x,), false)));
 // webauthn_rs AttestationCaList: the set of trusted attestation authorities; intersection keeps those trusted by both (ASSUMED)
 #[verifier::external_body] pub struct AttestationCaList { p: u8 }
 impl View for AttestationCaList { type V = Set<nat>; uninterp spec fn view(&self) -> Set<nat>; }
 impl AttestationCaList {
     #[verifier::external_body] pub fn intersection(&mut self, o: &AttestationCaList) ensures final(self)@ == old(self)@.intersect(o@) { unimplemented!() }
+    #[verifier::external_body] pub fn is_empty(&self) -> (r: bool) ensures r == (self@ =~= Set::<nat>::empty()) { unimplemented!() }
 }
 
 // ---- specification from the statement of C35: the resolved policy as a function of the multiset of group policies ----
